@@ -1,6 +1,7 @@
 import GtirbModel.Msg
 import GtirbModel.Proto
 import GtirbModel.DeepEq
+import GtirbModel.ProtoWF
 /-! Model E, line protocol (`model msg`): the V format (an `IRV`), the M format
 (an `MIR`) and the commands `tomsg`, `frommsg`, `roundtrip`, `deepeq`,
 `canoneq`, `header`, `loadhdr`. Tokens are separated by single spaces, byte and
@@ -434,6 +435,10 @@ def driverStep (line : String) : String :=
       match fromMsg m with
       | .ok v => "ok " ++ showIRV v
       | .error e => errName e
+    | _ => "bad-op"
+  | "wf" :: ts =>
+    match readIRV ts with
+    | some (v, []) => tBool (wfir v)
     | _ => "bad-op"
   | "roundtrip" :: ts =>
     match readIRV ts with
